@@ -1666,6 +1666,14 @@ func (c *RaftCluster) AddScheduler(scheduler schedule.Scheduler, args ...string)
 	return c.coordinator.addScheduler(scheduler, args...)
 }
 
+// UndoAddScheduler stops a scheduler that was just added and puts back the scheduling configuration that
+// was served before it, after the configuration with the scheduler could not be persisted.
+func (c *RaftCluster) UndoAddScheduler(name string, oldCfg *config.ScheduleConfig) {
+	c.Lock()
+	defer c.Unlock()
+	c.coordinator.undoAddScheduler(name, oldCfg)
+}
+
 // RemoveScheduler removes a scheduler.
 func (c *RaftCluster) RemoveScheduler(name string) error {
 	c.Lock()
